@@ -275,15 +275,40 @@ def wholly_different(data, salt=0):
     return (int.from_bytes(data, "big") ^ int.from_bytes(pat[:n], "big")).to_bytes(n, "big")
 
 
+# legal names that CONTAIN two or more consecutive dots: ordinary names, they lead nowhere (only the element ".." does)
+DOTTED_FILES = ["wait....bin", "v..2", "..x", "x..", "a..b.bin"]
+DOTTED_DIRS = ["disc..2", "..d", "d..", "cd..1"]
+
+
+def has_dotted(c):
+    return ".." in c and c != ".."
+
+
+def dotted_tree(rng, pl):
+    """aimed: a torrent whose file and directory names contain consecutive dots (every name is an ordinary name)"""
+    small = lambda: rng.choice([1, 7, 100, 300, pl // 2, pl + 17])       # noqa: E731
+    d = "10_" + rng.choice(DOTTED_DIRS)
+    tree = {("00_intro.bin",): rng.randbytes(rng.choice([pl, 100, 2 * pl])),
+            ("05_" + rng.choice(DOTTED_FILES),): rng.randbytes(rng.choice([2 * pl + 17, small()])),
+            (d, "side a.bin"): rng.randbytes(rng.choice([3 * pl, pl, small()])),
+            (d, "side b" + rng.choice(["", "..", "..bin"])): rng.randbytes(rng.choice([4000, small()]))}
+    if rng.random() < 0.4:
+        tree[(d, rng.choice(DOTTED_DIRS), "deep" + rng.choice(["", "...x"]))] = rng.randbytes(small())
+    return tree
+
+
 def gen_payload(rng, pl, idx):
     """returns (name, single, tree {comps: bytes}, classes)"""
     r = rng.random()
+    dots = ".." if rng.random() < 0.12 else ""          # the torrent's own name may contain consecutive dots as well
     if r < 0.14:
         n = rng.choice([1, 100, pl - 1, pl, pl + 1, 2 * pl, 2 * pl + 5, 3 * pl - 1])
-        return f"single{idx}.bin", True, {(): rng.randbytes(n)}, {"single file"}
-    if r < 0.55:
+        return f"single{dots}{idx}.bin", True, {(): rng.randbytes(n)}, {"single file"}
+    if r < 0.50:
         tree, classes = trees.gen_tree(rng, pl, max_files=6, single_prob=0.0, max_total=8)
-        return f"tor{idx}", False, tree, classes
+        return f"tor{dots}{idx}", False, tree, classes
+    if r < 0.56:
+        return f"tor{dots}{idx}", False, dotted_tree(rng, pl), {"nested", "structured layout"}
     # structured layouts: names keep the listed order under every sort the creators use
     small = lambda: rng.choice([1, 7, 100, 300, pl // 2])       # noqa: E731
     templates = [
@@ -303,23 +328,24 @@ def gen_payload(rng, pl, idx):
         k = rng.choice([1, 2, 3])
         tree = {("00_disc1", "track.bin"): rng.randbytes(k * pl), ("00_disc1", "cover.jpg"): rng.randbytes(pl),
                 ("50_disc2", "cover.jpg"): rng.randbytes(pl), ("50_disc2", "track.bin"): rng.randbytes(rng.choice([pl, 2 * pl, 777]))}
-        return f"tor{idx}", False, tree, {"nested", "structured layout", "same file name in two directories, whole-piece files"}
+        return f"tor{dots}{idx}", False, tree, {"nested", "structured layout", "same file name in two directories, whole-piece files"}
     sizes = rng.choice(templates)
     grouping = rng.choice(["flat", "one-dir", "two-dirs", "deep"])
+    d0, d1, sub = rng.choice(["00_d", "00_d", "00_disc..1"]), rng.choice(["50_e", "50_e", "50_e.."]), rng.choice(["00_sub", "00_sub", "00_..sub"])
     tree = {}
     for i, s in enumerate(sizes):
-        fname = f"{i:02d}_" + rng.choice(["a", "b.bin", "é", "x y", "k"])
+        fname = f"{i:02d}_" + rng.choice(["a", "b.bin", "é", "x y", "k", "wait....bin", "v..2"])
         if grouping == "flat":
             comps = (fname,)
         elif grouping == "one-dir":
-            comps = ("00_d", fname)
+            comps = (d0, fname)
         elif grouping == "two-dirs":
-            comps = (("00_d", fname) if i < (len(sizes) + 1) // 2 else ("50_e", fname))
+            comps = ((d0, fname) if i < (len(sizes) + 1) // 2 else (d1, fname))
         else:
-            comps = ("00_d", "00_sub", fname) if i % 2 == 0 else ("00_d", fname)
+            comps = (d0, sub, fname) if i % 2 == 0 else (d0, fname)
         tree[comps] = rng.randbytes(s)
     classes = {"nested" if grouping != "flat" else "flat", "structured layout"}
-    return f"tor{idx}", False, tree, classes
+    return f"tor{dots}{idx}", False, tree, classes
 
 
 def make_metafile(t, workdir):
@@ -451,14 +477,21 @@ class Placer:
 def gen_case(case_seed, profile, workdir, force_mode=None):
     """
     profile: 'c13' (no partially matching decoy, no aligned v1), 'd27' (one partially matching decoy enumerated
-    first), 'd28' (aligned v1 metafile), 'c14' (everything, plus -- done by c14.py -- a pre-populated destination).
+    first), 'd28' (aligned v1 metafile), 'c14' (everything, plus -- done by c14.py -- a pre-populated destination),
+    'samename' (one file name in two directories, whole-piece files), 'dotted' (file / directory names containing consecutive
+    dots, single metafiles and batches), 'boundary' (v1: a file of exactly k pieces followed by a file whose wholly different
+    same-size decoy is enumerated before the intact copy), 'boundary-only' (the same, the decoy is the ONLY candidate of that
+    file: C14 only, C13's premise does not hold).
     Everything is derived from case_seed.  Files are written under workdir.
     force_mode='cli-proc': the unpatched command line in a fresh interpreter (enumeration order of the filesystem).
     """
     rng = random.Random(case_seed)
     case = {"seed": case_seed, "profile": profile, "workdir": workdir, "classes": set(), "force_mode": force_mode}
     cl = case["classes"]
+    boundary = profile in ("boundary", "boundary-only")
     nb = 1 if rng.random() < 0.72 or profile in ("d27", "d28") else rng.choice([2, 2, 3])
+    if profile == "dotted" and rng.random() < 0.5:
+        nb = rng.choice([2, 2, 3])
     if nb > 1:
         cl.add(f"batch of {nb} metafiles")
     case["order"] = "sorted" if profile == "d27" else rng.choice(["sorted", "sorted", "reversed"])
@@ -486,6 +519,19 @@ def gen_case(case_seed, profile, workdir, force_mode=None):
             tree = {("00_disc1", "cover.jpg"): rng.randbytes(pl), ("00_disc1", "track.bin"): rng.randbytes(k * pl),
                     ("50_disc2", "cover.jpg"): rng.randbytes(pl), ("50_disc2", "track.bin"): rng.randbytes(rng.choice([pl, 2 * pl, 777]))}
             pcl = {"nested", "structured layout", "same file name in two directories, whole-piece files"}
+        if profile == "dotted" and (i == 0 or rng.random() < 0.5):
+            name, single, tree, pcl = f"tor{rng.choice(['', '..'])}{i}", False, dotted_tree(rng, pl), {"nested", "structured layout"}
+        if boundary and i == 0:
+            # aimed: v1, file A of exactly k pieces, then file B (and sometimes C): B starts on a piece boundary
+            kind = rng.choice(["v1", "ref1"])
+            k = rng.choice([1, 1, 2, 3])
+            a, b, c = rng.choice([("00_A.bin", "01_B.bin", "02_c"), ("00_d/00_a", "00_d/01_b", "50_e/00_c"), ("00_a", "50_d/00_b", "50_d/01_c")])
+            name, single = f"tor{i}", False
+            tree = {tuple(a.split("/")): rng.randbytes(k * pl),
+                    tuple(b.split("/")): rng.randbytes(rng.choice([20000, 100, pl, pl + 1, 2 * pl + 5, 3 * pl, 1]))}
+            if rng.random() < 0.5:
+                tree[tuple(c.split("/"))] = rng.randbytes(rng.choice([1, 300, pl, pl + 7]))
+            pcl = {"nested" if "/" in b else "flat", "structured layout", "file of exactly k pieces followed by a file with a decoy"}
         if profile == "d28" and single:
             name, single, tree = f"tor{i}", False, {("00_a",): rng.randbytes(100), ("01_b",): rng.randbytes(pl + 200),
                                                      ("02_c",): rng.randbytes(300)}
@@ -493,7 +539,7 @@ def gen_case(case_seed, profile, workdir, force_mode=None):
             k = sorted(tree)[0]
             tree[k] = rng.randbytes(2 * pl + rng.choice([0, 1, 77]))
         t = {"name": name, "single": single, "tree": tree, "pl": pl, "kind": kind}
-        if kind == "ref1" and not single and rng.random() < 0.4:
+        if kind == "ref1" and not single and rng.random() < 0.4 and not (boundary and i == 0):
             order = sorted(tree)
             rng.shuffle(order)
             t["order"] = order
@@ -524,6 +570,11 @@ def gen_case(case_seed, profile, workdir, force_mode=None):
                 continue
             fname, data = e["rel"][-1], e["data"]
             want_same = len(data) > 0 and rng.random() < 0.30 and n_samesize < 5
+            # aimed: the file that follows a file ending exactly on a piece boundary
+            aimed = bool(boundary and ti == 0 and len(data) > 0 and e["offset"] and e["offset"] % t["pl"] == 0 and
+                         any(x["rel"] and x["length"] and x["offset"] + x["length"] == e["offset"] for x in t["layout"]))
+            only_decoy = aimed and profile == "boundary-only" and not case.get("only_decoy")
+            want_same = want_same or aimed
             want_part = len(data) > t["pl"] and "v1" == t["views"][0] and \
                 ((profile == "c14" and rng.random() < 0.2) or (profile == "d27" and not case.get("partial")))
             # same name, LONGER than recorded: the genuine bytes followed by junk, enumerated before the genuine file (a size
@@ -532,11 +583,16 @@ def gen_case(case_seed, profile, workdir, force_mode=None):
                 and n_longer < 4
             banded = want_same or want_part or want_longer
             root = rng.randrange(nroots)
-            p = pc.place(rng, root, "5" if banded else None, fname, data, "intact", min_depth=1 if banded else 0)
-            e["intact_at"] = p
+            if only_decoy:
+                e["intact_at"] = None
+                case["only_decoy"] = "/".join(e["rel"])
+                cl.add("candidates: a wholly wrong same-size decoy is the only candidate")
+            else:
+                p = pc.place(rng, root, "5" if banded else None, fname, data, "intact", min_depth=1 if banded else 0)
+                e["intact_at"] = p
             if want_same:
                 n_samesize += 1
-                for where in rng.choice([["before"], ["after"], ["before", "after"]]):
+                for where in (["before"] if aimed else rng.choice([["before"], ["after"], ["before", "after"]])):
                     r2, band = spot(where, root)
                     q = pc.place(rng, r2, band, fname, wholly_different(data, rng.randrange(251)), "same-size decoy", 1)
                     case["decoys"].append({"t": ti, "l": li, "kind": "same-size", "path": q})
@@ -621,6 +677,8 @@ def gen_case(case_seed, profile, workdir, force_mode=None):
                 if not ds:
                     cl.add("candidates: unique")
                 for d in ds:
+                    if e.get("intact_at") is None:
+                        continue
                     rel = "before" if pos[d["path"]] < pos[e["intact_at"]] else "after"
                     d["enumerated"] = rel
                     if d["kind"] == "different-size":
@@ -658,6 +716,12 @@ def classify_layout(t):
     names = [e["rel"][-1] for e in ents]
     if len(set(names)) < len(names):
         cl.add("two files of the torrent share a file name")
+    if any(has_dotted(e["rel"][-1]) for e in ents if len(e["rel"]) > 1):
+        cl.add("file name containing consecutive dots")
+    if any(has_dotted(c) for e in ents for c in e["rel"][1:-1]):
+        cl.add("directory name containing consecutive dots")
+    if ents and has_dotted(ents[0]["rel"][0]):
+        cl.add("torrent name containing consecutive dots")
     if t["has_pad"]:
         cl.add("v1 padding entries")
     if "v1" == t["views"][0] and n > 1:
